@@ -364,6 +364,79 @@ def r3_agreement(ctx):
            sample={"make": om, "zobrist_xor": ox})
 
 
+def _delta_by_helper(ctx, f, ex, a, ai, mv, name):
+    """the hash delta is computed by a helper that is new to the reviewed tree (and was spliced into the caller): its
+    paths are compared, move kind by move kind, with the matching component of zobrist_xor. Returns (ok, text) or None
+    when this does not apply / cannot be read."""
+    from . import movefx as FX
+    prog = ctx.prog
+    sites = [s_ for s_ in prog.inline_sites if s_["caller"] == f["key"]]
+    cands = []
+    for s_ in sites:
+        g = prog.helper_bodies.get(s_["callee"]) or prog.fns.get(s_["callee"])
+        if g is None:
+            continue
+        n = g["args"] if isinstance(g["args"], int) else len(g["args"])
+        if n == 1 and "Move" in g["locals"][1]["ty"] and g["locals"][0]["ty"] in ("u64", "inkayaku_board::constants::ZobristHash"):
+            if mv is not None and ex.local(s_["local_offset"] + 1) == mv:
+                cands.append(g)
+    if len(cands) != 1 or not (a[0] == "bin" and a[1] == "BitXor" and ("param", ai + 1) in (a[2], a[3])):
+        return None
+    g = cands[0]
+    want = 0 if (name == "search_negamax" and ai == 7) else 1
+    try:
+        acc = FX.accessor_indices(prog)
+        ref, _ = FX.xor_table(prog, acc)
+        mine, _ = FX.xor_table(prog, acc, fn=g)
+    except FX.FxError as e:
+        return None
+    except Exception:
+        return None
+    norm = lambda ts: sorted((("piece", x[1], x[2], FX.base_name_sq(x[3])) if x[0] == "piece" else x) for x in ts)
+    _C = {n_: prog.const_value("inkayaku_board::board::constants::" + n_) for n_ in ("PAWN", "KING", "NO_PIECE")}
+    n_pairs = 0
+    for p_ in mine:
+        for q_ in ref:
+            if not FX.compatible_paths(p_, q_):
+                continue
+            eqs = dict(q_[1]); eqs.update(p_[1])
+            for k_ in set(q_[1]) & set(p_[1]):
+                if k_.startswith("ne:"):
+                    eqs[k_] = set(q_[1][k_]) | set(p_[1][k_])
+            # moves the generator can produce: a promotion or an e.p. capture is a pawn move (e.p. captures a pawn),
+            # a castling move is a king move that captures nothing
+            kd = {k: (p_[0].get(k) if p_[0].get(k) is not None else q_[0].get(k)) for k in ("castle", "ep", "promo")}
+            def known(g, v):
+                return eqs.get(g) == v
+            def excluded(g, v):
+                return (g in eqs and eqs[g] != v) or v in eqs.get("ne:" + g, ())
+            PAWN_, KING_, NONE_ = _C["PAWN"], _C["KING"], _C["NO_PIECE"]
+            if (kd["promo"] or kd["ep"]) and excluded("get_piece_moved", PAWN_):
+                continue
+            if kd["ep"] and excluded("get_piece_attacked", PAWN_):
+                continue
+            if "ne:get_next_en_passant_square" in eqs and excluded("get_piece_moved", PAWN_):
+                continue        # only a pawn's double step creates an e.p. target
+            if kd["castle"] and (excluded("get_piece_moved", KING_) or excluded("get_piece_attacked", NONE_)):
+                continue
+            n_pairs += 1
+            def canon(ts):
+                out = []
+                for x in norm(ts):
+                    if x[0] == "piece" and x[2][0] == "getter" and x[2][1] in eqs and not isinstance(eqs[x[2][1]], set):
+                        x = ("piece", x[1], ("const", eqs[x[2][1]]), x[3])
+                    out.append(x)
+                return sorted(out, key=repr)
+            got, exp = canon(p_[2]), canon(q_[2 + want])
+            if got != exp:
+                kind = {k: v for k, v in q_[0].items() if v is not None}
+                return (False, "the hash delta is computed by %s, which differs from zobrist_xor(mv).%d for a move with %s (established: %s): it toggles %s, zobrist_xor toggles %s"
+                        % (g["display"], want, kind or "no special kind", {k: (sorted(v) if isinstance(v, set) else v) for k, v in eqs.items()}, got, exp))
+    if n_pairs == 0:
+        return None
+    return (True, "%s agrees with zobrist_xor(mv).%d on all %d compatible path pairs" % (g["display"], want, n_pairs))
+
+
 def r4_threading(ctx):
     rid = "C06.R4"
     ctx.rule(rid, "the recursive searches pass hash ^ zobrist_xor(mv) for the move handed to the dominating make", floor=3)
@@ -405,6 +478,11 @@ def r4_threading(ctx):
                             opaque = not calls
                             why = "delta %s is not zobrist_xor of the move made (%s)" % (show(d), show(mv) if mv else None)
                 if not ok and opaque:
+                    verdict = _delta_by_helper(ctx, f, ex, a, ai, mv, name)
+                    if verdict is not None:
+                        okh, whyh = verdict
+                        ctx.ob(rid, "%s|hash-arg-%d" % (name, ai + 1), okh, "" if okh else "%s: %s" % (name, whyh), ctx.where(f, t["line"]), sample={"function": name, "argument": show(a), "delta_helper": whyh if okh else None})
+                        continue
                     ctx.lost(rid, "%s: hash argument %d is computed in a way this rule does not read (%s)" % (name, ai + 1, show(a)[:80]))
                     continue
                 ctx.ob(rid, "%s|hash-arg-%d" % (name, ai + 1), ok, "" if ok else "%s: %s" % (name, why), ctx.where(f, t["line"]), sample={"function": name, "argument": show(a)})
